@@ -4,10 +4,9 @@
 use hpbf::exec::{Executable, Executor, InplaceInterpreter};
 use hpbf::runtime::Context;
 
-const LEN: usize = 4;
 const BUDGET: usize = 2;
 
-fn reference(src: &[u8], n: usize) -> Option<([u8; 9], isize, bool)> {
+fn reference<const LEN: usize>(src: &[u8], n: usize) -> Option<([u8; 9], isize, bool)> {
     // returns (tape window [-4,4], pointer, finished); None when an unmatched ']' is met
     let mut tape = [0u8; 9];
     let mut p: isize = 0;
@@ -66,6 +65,22 @@ fn reference(src: &[u8], n: usize) -> Option<([u8; 9], isize, bool)> {
 #[kani::proof]
 #[kani::unwind(22)]
 fn every_ascii_source_up_to_4_bytes() {
+    every_source::<4>()
+}
+
+#[kani::proof]
+#[kani::unwind(18)]
+fn every_ascii_source_up_to_3_bytes() {
+    every_source::<3>()
+}
+
+#[kani::proof]
+#[kani::unwind(14)]
+fn every_ascii_source_up_to_2_bytes() {
+    every_source::<2>()
+}
+
+fn every_source<const LEN: usize>() {
     let bytes: [u8; LEN] = kani::any();
     let n: usize = kani::any();
     kani::assume(n <= LEN);
@@ -81,7 +96,7 @@ fn every_ascii_source_up_to_4_bytes() {
     let mut cxt = Context::<u8>::without_io();
     cxt.budget = BUDGET;
     let res = exec.execute_limited(&mut cxt);
-    match reference(&bytes, n) {
+    match reference::<LEN>(&bytes, n) {
         None => assert!(res.is_err(), "an unmatched ']' is reported as an error"),
         Some((tape, p, finished)) => {
             assert!(res.is_ok());
